@@ -80,6 +80,14 @@ Theorem c19_texttable_alias : forall lower,
 Proof. exact texttable_alias. Qed.
 Print Assumptions c19_texttable_alias.
 
+(* For a dot-free NAME that is no package name, auto.Wrap is exactly
+   texttable.Wrap + SetDecorationNamed(NAME): that one name is looked up,
+   nothing that merely resembles it (C17's fails-closed clause through auto). *)
+Theorem c19_plain_is_set : forall lower reg n,
+  nodot n -> plain_name lower n -> wrap lower reg n = Ok (RText (text_named reg n)).
+Proof. exact plain_is_set. Qed.
+Print Assumptions c19_plain_is_set.
+
 Theorem c19_texttable_default : forall lower,
   lower_on_ascii lower -> forall reg, wrap lower reg s_texttable = Ok (RText text_wrap).
 Proof. exact texttable_default. Qed.
